@@ -79,6 +79,9 @@ theorem allocate_sat {k : Nat} :
     Sat L n (allocate mx k)
       (CPost mx L n (fun b => b.ws = [] ∧ b.cap = defaultCapacity mx k ∧ k ≤ mx)) := by
   unfold allocate
+  apply Sat.ite
+  · intro _; exact Sat.fault_panic
+  intro _
   apply Sat.bind
   apply Sat.conseq defaultCapacityChecked_sat
   intro c L' n' _ ⟨hL, hn, hc, hk⟩
@@ -109,6 +112,9 @@ theorem reallocate_sat {b : Buf} {k : Nat} (hL : L b.id = some b.cap) :
   unfold reallocate
   apply Sat.ite
   · intro hl
+    apply Sat.ite
+    · intro _; exact Sat.fault_panic
+    intro _
     apply Sat.bind
     apply Sat.conseq defaultCapacityChecked_sat
     intro c L' n' _ ⟨hL', hn, hc, hk⟩
